@@ -60,6 +60,10 @@ def gw_frame(name: str, req: bytes, n: int) -> dict[str, Any]:
         return {**base, "k": "Ack", "src": TESTER, "dst": ECU, "d": list(req[:5]), "cw": 2}
     if name == "AckFull":  # echoes more than five bytes: not the acknowledgement the statement describes
         return {**base, "k": "Ack", "src": TESTER, "dst": ECU, "d": list(req) + [0xAA] * max(0, 6 - len(req)), "cw": 2}
+    if name == "AckPrefix":  # echoes fewer bytes than the first five (a proper prefix of them): not the acknowledgement
+        return {**base, "k": "Ack", "src": TESTER, "dst": ECU, "d": list(req[:max(1, min(len(req), 5) - 1)]), "cw": 2}
+    if name == "AckEmpty":   # tester's address pair, nothing echoed
+        return {**base, "k": "Ack", "src": TESTER, "dst": ECU, "d": [], "cw": 2}
     if name == "AckWrongPair":
         return {**base, "k": "Ack", "src": ECU, "dst": TESTER, "d": list(req[:5]), "cw": 2}
     if name == "AckOtherPair":
